@@ -484,9 +484,35 @@ def repeat_check(torch, cr, model, pts, first, what, detail, rtol=1e-12):
     return again
 
 
+class perturbed_params:
+    """context: every parameter of the model multiplied elementwise by (1 +- eps) (fixed pseudo-random signs), restored
+    bit-exactly on exit.  Rounding noise enters a network at EVERY layer (each product with a weight), not only at the input:
+    an input perturbation alone is damped by a saturated sigmoid/tanh and then misses the amplification by later cubes /
+    squares / sin of large arguments."""
+
+    def __init__(self, torch, model, eps, seed):
+        self.torch, self.model, self.eps, self.seed = torch, model, eps, seed
+
+    def __enter__(self):
+        torch = self.torch
+        self.saved = [(p, p.detach().clone()) for p in self.model.parameters()]
+        g = torch.Generator().manual_seed(self.seed)
+        with torch.no_grad():
+            for p, _ in self.saved:
+                sgn = (torch.randint(0, 2, p.shape, generator=g).to(p.dtype) * 2 - 1) if p.numel() else p
+                p.mul_(1 + self.eps * sgn)
+
+    def __exit__(self, *a):
+        with self.torch.no_grad():
+            for p, old in self.saved:
+                p.copy_(old)
+        return False
+
+
 def sensitivity(torch, model, pts, base=None):
-    """per row: 8 * max over two sign patterns of |model(x*(1 +- eps) +- eps) - model(x)| with eps = 2^-44 (about 256 ulp):
-    what rounding-level noise in the input does to the implementation's own output.  Cubes followed by sin/quadratic
+    """per row: 8 * max over two sign patterns of |model'(x*(1 +- eps) +- eps) - model(x)| with eps = 2^-44 (about 256 ulp),
+    model' = the model with every parameter multiplied by (1 +- eps): what rounding-level noise in the input AND at every
+    layer does to the implementation's own output.  Cubes followed by sin/quadratic
     layers reach magnitudes where one ulp of an intermediate value is a visible change of the output; such rows get a
     large slack (counted as ill-conditioned), well-conditioned rows a negligible one.  inf where it cannot be evaluated."""
     # always a fresh re-evaluation: a stateful object (first call differs from later ones) must not inflate the slack
@@ -501,7 +527,8 @@ def sensitivity(torch, model, pts, base=None):
         s1 = torch.randint(0, 2, t.shape, generator=g).to(t.dtype) * 2 - 1
         s2 = torch.randint(0, 2, t.shape, generator=g).to(t.dtype) * 2 - 1
         try:
-            pert = call(torch, model, type(pts)(t * (1 + EPS * s1) + EPS * s2, pts.space))
+            with perturbed_params(torch, model, EPS, 2000 + k):   # noise at every layer, not only at the input
+                pert = call(torch, model, type(pts)(t * (1 + EPS * s1) + EPS * s2, pts.space))
         except Exception:   # noqa
             return [float("inf")] * n
         if not pert.ok or len(pert.rows) != n:
@@ -944,7 +971,8 @@ def extremes(tp, torch, cr, spec, case):
                 for sgn in (1.0, -1.0):
                     Xp = X.clone()
                     Xp[i] = X[i] * (1 + sgn * eps) + sgn * eps * 1e-3
-                    pert = call(torch, model, P(Xp, space))
+                    with perturbed_params(torch, model, eps, 3000 + int(sgn)):
+                        pert = call(torch, model, P(Xp, space))
                     if not pert.ok:
                         slack = float("inf")
                         break
